@@ -586,7 +586,7 @@ def _nodes(r, path=()):
         yield from _nodes(c, path + (c["name"],))
 
 
-FAULT_KINDS = ["drop-connection", "duplicate-target", "duplicate-source", "cycle", "self-loop", "rep-two-children", "rep-no-child", "rep-own-resources"]
+FAULT_KINDS = ["drop-connection", "duplicate-target", "duplicate-source", "duplicate-connection", "cycle", "self-loop", "rep-two-children", "rep-no-child", "rep-own-resources"]
 
 
 def inject_fault(rng, r, kind=None):
@@ -614,6 +614,14 @@ def inject_fault(rng, r, kind=None):
             return None
         w_in, w_out = rng.choice(best)
         w_in[0], w_out[0] = w_out[0], w_in[0]
+        return r, kind
+    if kind == "duplicate-connection":
+        # the very same wire listed twice: both of its ends are then connected twice
+        cands = [n for n in nodes if n["connections"]]
+        if not cands:
+            return None
+        n = rng.choice(cands)
+        n["connections"].append(list(rng.choice(n["connections"])))
         return r, kind
     if kind == "drop-connection":
         cands = [n for n in nodes if n["connections"]]
